@@ -44,6 +44,7 @@ type checkCfg struct {
 	Property    string       `json:"property"`
 	Harnesses   []harnessCfg `json:"harnesses"`
 	Assumptions []string     `json:"assumptions"`
+	Solver      string       `json:"solver"`
 	Outside     []string     `json:"outside"`
 }
 
@@ -79,7 +80,7 @@ func main() {
 		verif     = flag.String("verif", "/verif", "verif dir")
 		workers   = flag.Int("workers", 16, "parallel workers")
 		seed      = flag.Int("seed", 0, "seed")
-		solverK   = flag.String("solver", "z3", "solver kind")
+		solverK   = flag.String("solver", "", "solver kind (default: from check config, else z3)")
 		only      = flag.String("only", "", "only instances whose params match k=v,k=v")
 		verbose   = flag.Bool("v", false, "verbose")
 		noReplay  = flag.Bool("noreplay", false, "skip native replay")
@@ -95,6 +96,13 @@ func main() {
 	if err := json.Unmarshal(data, &cfg); err != nil {
 		fatal(err)
 	}
+	if *solverK == "" {
+		*solverK = cfg.Solver
+	}
+	if *solverK == "" {
+		*solverK = "z3"
+	}
+	solverName = map[string]string{"z3": "z3 4.8.12", "z3-new": "z3 5.1.0 (z3-new)", "cvc5": "cvc5 1.0"}[*solverK]
 	known := map[string]bool{}
 	var findings []finding
 	if fd, err := os.ReadFile(filepath.Join(*verif, "known_findings.json")); err == nil {
@@ -769,6 +777,8 @@ func fileHash(p string) string {
 	return fmt.Sprintf("%x", h[:6])
 }
 
+var solverName = "z3"
+
 func writeEvidence(verif string, cfg *checkCfg, tier string, seed int, a *aggT, wall time.Duration, confirmed int, repo string) {
 	var funcs []string
 	for f := range a.funcs {
@@ -836,7 +846,7 @@ func writeEvidence(verif string, cfg *checkCfg, tier string, seed int, a *aggT, 
 			"discharged":                    a.discharged,
 			"obligations_trivially_true":    a.trivial,
 			"assertion_sites_reached":       a.reached,
-			"solver":                        map[string]interface{}{"name": "z3 4.8.12 (one persistent process per harness instance, push/pop)", "queries": a.solver.Queries, "sat": a.solver.Sat, "unsat": a.solver.Unsat, "unknown": a.solver.Unknown, "errors": a.solver.Errors, "time_s": a.solver.Time.Seconds(), "max_query_s": a.solver.MaxQuery.Seconds()},
+			"solver":                        map[string]interface{}{"name": solverName + " (one persistent process per harness instance, push/pop)", "queries": a.solver.Queries, "sat": a.solver.Sat, "unsat": a.solver.Unsat, "unknown": a.solver.Unknown, "errors": a.solver.Errors, "time_s": a.solver.Time.Seconds(), "max_query_s": a.solver.MaxQuery.Seconds()},
 			"bounds":                        bounds,
 			"functions_encoded":             funcs,
 			"stubs_and_overrides_hit":       stubs,
